@@ -15,11 +15,19 @@ def gen_timed(ctx, n):
     bodies = ['{ c = c + 1 }', '{ }', '{ c = c + 1; call { d = c } }', '{ { c = c + 1 } forEach [1, 2, 3] }',
               '{ if (c > 5) then { c = c + 1 } else { c = c + 2 } }', '{ c = c + 1; [] spawn { c = c + 1 } }']
     for i in range(n):
-        kind = r.weighted([('while', 5), ('for0', 3), ('forlong', 2), ('recurse', 2), ('spawnchain', 2), ('waituntil', 2), ('terminating', 3), ('sleeper', 3), ('waitfalse', 3)])
+        kind = r.weighted([('while', 5), ('for0', 3), ('forlong', 2), ('recurse', 2), ('spawnchain', 2), ('waituntil', 2), ('terminating', 3), ('sleeper', 3), ('waitfalse', 3), ('whilecond', 2), ('evalloop', 2)])
         body = r.choice(bodies)
         sched = r.chance(1, 2)
         if kind == 'while':
             core_ = 'while {true} do %s' % body
+        elif kind == 'whilecond':
+            # the condition counts its own evaluations: a capped loop evaluates it as often as it runs the body
+            core_ = 'd = 0; while { c = c + 1; true } do { d = d + 1 }'
+            sched = False
+        elif kind == 'evalloop':
+            # expressions evaluated while a text is preprocessed, from inside a run: they run on the budget of that run
+            core_ = r.choice(['for "_i" from 0 to 1 step 0 do { c = c + 1; preprocess__ "__EVAL(1+1)" }',
+                              'while { true } do { c = c + 1; preprocess__ "a = __EVAL(c)"; preprocess__ "__EVAL(2)" }'])
         elif kind == 'for0':
             core_ = 'for "_i" from 0 to 1 step 0 do %s' % body
         elif kind == 'forlong':
@@ -47,8 +55,12 @@ def gen_timed(ctx, n):
         limit = r.choice([20, 35, 50, 80, 120, 200, 400])
         maxloops = r.choice([10000, 10000, 7, 50])
         age = r.choice([0, 0, 1000, 100000])
+        if kind == 'whilecond':
+            limit, maxloops = 400, 7
+        if kind == 'evalloop':
+            maxloops = 10000000
         cid = 't%d' % i
-        cases.append({'id': cid, 'text': prog, 'kind': kind, 'sched': sched, 'limit': limit, 'maxloops': maxloops, 'age': age,
+        cases.append({'id': cid, 'text': prog, 'kind': kind, 'nomodel': kind == 'evalloop', 'sched': sched, 'limit': limit, 'maxloops': maxloops, 'age': age,
                       'line': 'start %s %s %s %s %s %s' % (cid, hexf(prog), hexf('c,done'), hexf(str(limit)), hexf(str(maxloops)), hexf(str(age)))})
     return cases
 
@@ -114,7 +126,7 @@ def oracle(c, got):
     res, st, err, t, cnt, done = m.groups()
     t = int(t)
     elapsed = t - c['age']
-    capped = (c['kind'] == 'while' and not c['sched'])
+    capped = (c['kind'] in ('while', 'whilecond') and not c['sched'])
     if c['kind'] == 'terminating' or capped:
         # may legitimately finish before the limit (terminating program, or the iteration cap ends the loop)
         if res == 'empty' and st == 'empty' and err == '' and done == '1':
@@ -159,7 +171,7 @@ def run(ctx):
             if n_or <= 3:
                 rep.violation('oracle', {'property': 'C11', 'kind': 'execution-bound', 'seed': ctx.seed, 'case': c['id'], 'program': c['text'],
                                          'limit_ms': c['limit'], 'max_loops': c['maxloops'], 'vm_age_ms': c['age'], 'difference': bad, 'line': c['line']})
-        elif model is not None and got != model.get(c['id']):
+        elif model is not None and not c.get('nomodel') and got != model.get(c['id']):
             n_mm += 1
             if n_mm <= 3:
                 rep.violation('correspondence', {'property': 'C11', 'kind': 'model-vs-implementation', 'seed': ctx.seed, 'case': c['id'],
@@ -241,7 +253,7 @@ def run(ctx):
                                                  'program': c['text'], 'actions': c['actions'], 'limit_ms': c['limit'],
                                                  'implementation': got[:2000], 'model': (smodel.get(c['id']) or '')[:2000], 'line': c['line']})
     cov = {'evaluations': len(cases) + len(hist) + len(steps), 'distinct_nontrivial': len(distinct), 'run_histories': len(hist), 'stepping_histories_under_a_limit': len(steps),
-           'rule': 'non-terminating and long programs of every loop kind (while incl. empty body, for incl. step 0, recursion through call, mutually spawning scripts, waitUntil), scheduled and unscheduled, with a time limit, a loop cap and a VM age drawn at random; run with execute(start) under the virtual clock; oracle: the limit is reported (60002), the VM is empty, the run is reported failed, the end time lies in [limit, limit + slack], or — for capped / terminating programs — the program ends cleanly with exactly cap iterations; distinct by (text, limit, cap, age); in addition histories of runs on one instance with a limit (exported API): ordinary runs, one or two runs that never end of ten kinds, ordinary runs behind them; oracle: -6 for the cut-off run, 0 and no error-level diagnostic for every run behind it, status idle; plus stepping histories under a time limit (ctl verb with a limit and a pause action): a stepping action or start over a loop that does not end is cut off by the limit (VM empty, about limit iterations), and a history that keeps a halted script across pauses longer than the limit equals the history without pauses and without limit (every action measures the limit from its own start); both compared with the model step by step',
+           'rule': 'non-terminating and long programs of every loop kind (while incl. empty body, for incl. step 0, recursion through call, mutually spawning scripts, waitUntil), scheduled and unscheduled, with a time limit, a loop cap and a VM age drawn at random; run with execute(start) under the virtual clock; oracle: the limit is reported (60002), the VM is empty, the run is reported failed, the end time lies in [limit, limit + slack], or — for capped / terminating programs — the program ends cleanly with exactly cap iterations; distinct by (text, limit, cap, age); in addition histories of runs on one instance with a limit (exported API): ordinary runs, one or two runs that never end of ten kinds, ordinary runs behind them; oracle: -6 for the cut-off run, 0 and no error-level diagnostic for every run behind it, status idle; plus stepping histories under a time limit (ctl verb with a limit and a pause action): a stepping action or start over a loop that does not end is cut off by the limit (VM empty, about limit iterations), and a history that keeps a halted script across pauses longer than the limit equals the history without pauses and without limit (every action measures the limit from its own start); both compared with the model step by step; also loops whose condition counts its own evaluations under a small cap, and loops that preprocess texts with __EVAL under a limit (oracle only)',
            'samples': samples, 'oracle_failures': n_or, 'model_mismatches': n_mm, 'kinds': kinds}
     return rep.finish(cov, ['each single operator call terminates (the property\'s proviso); wall-clock slack of a single long operator call is outside the virtual clock',
                             'longer histories of API calls with every call type are explored by C18'])
